@@ -490,11 +490,14 @@ def main():
                 else:
                     broken.append(("assumptions", "%s depends on %s" % (n, pa_detail[n])))
     if tier == "thorough" and ok_thm:
-        rc, out = run(["coqchk", "-silent", "-o", "-Q", "theories", "MsiModel", "-Q", "gen", "MsiGen", "-Q", "props", "MsiProps",
-                       ] + ["MsiProps.%s" % m for m in prop_modules(prop)], 1800, cwd=COQ)
+        cmd = ["coqchk", "-silent", "-o", "-Q", "theories", "MsiModel", "-Q", "gen", "MsiGen", "-Q", "props", "MsiProps",
+               ] + ["MsiProps.%s" % m for m in prop_modules(prop)]
+        rc, out = run(cmd, 2400, cwd=COQ)
+        if rc != 0 and not out.strip():
+            rc, out = run(cmd, 2400, cwd=COQ)        # killed without a message (resource pressure): once more
         notes.append("coqchk rc=%d: %s" % (rc, " ".join(out.split())[-300:]))
         if rc != 0:
-            broken.append(("coqchk", out[-800:]))
+            broken.append(("coqchk", "rc=%d %s" % (rc, out[-800:])))
     log("theorems: %d/%d discharged" % (discharged, len(names)))
 
     # 4 drivers
@@ -530,9 +533,19 @@ def main():
             ctx = Ctx([c], io, mo, lambda cs: run_sharded(os.path.join(BUILD, "ocaml", "model_driver"), cs, 900),
                       lambda cs: run_sharded(impl_exe, cs, 900), "debug", tier)
             found = mod.oracle(ctx) if ok_rs else []
-            for f in found[:5]:
+            known = load_known()
+            unlisted = []
+            for f in found:
+                cls = mod.classify_known(f) if hasattr(mod, "classify_known") else None
+                hit = [k for k in known if cls and k["cls"] == cls]
+                if hit:
+                    log("KNOWN-FINDING: property=%s %s" % (prop, hit[0]["what"]))
+                else:
+                    unlisted.append(f)
+            for f in unlisted[:5]:
                 log("oracle: %s" % str(f.get("what"))[:400])
-            differ = any(not lines_agree(a, b) for a, b in zip(mo[0], io[0]))
+            differ = any(not lines_agree(a, b) for a, b in zip(mo[0], io[0]) if not a == "(any)")
+            found = unlisted
             if found or differ or broken:
                 log("VIOLATION property=%s replay=%s" % (prop, args.replay))
                 sys.exit(1)
